@@ -100,6 +100,12 @@ func (ln *ledgerNames) addTx(tx *types.Tx, ins []string, kinds []byte, coinbase 
 	ti := &txInfo{name: fmt.Sprintf("t%d", ln.nTx), tx: tx, ins: ins}
 	for i, o := range tx.Outputs {
 		kind := kinds[i]
+		// two conflicting transactions with the same inputs and an identical output at the same
+		// position produce the same output id (the mux id covers the inputs only): one name
+		if name, ok := ln.outByID[*tx.ResultIds[i]]; ok {
+			ti.outs = append(ti.outs, name)
+			continue
+		}
 		ln.nOut++
 		name := fmt.Sprintf("o%d", ln.nOut)
 		info := &outInfo{name: name, tx: tx, idx: i, kind: kind, amount: o.Amount, id: *tx.ResultIds[i], cb: coinbase}
